@@ -176,28 +176,33 @@ impl Pipeline {
         // Build a chain: operators push to each other, final one pushes to sink
         let mut current_chunk = chunk;
         let num_operators = self.operators.len();
+        // An operator that asks for early termination may still have handed on rows with
+        // that very call (LIMIT passes its last rows and returns false): they must reach
+        // the operators downstream before the request is reported to the caller.
+        let mut keep_going = true;
 
         for i in 0..num_operators {
             let is_last = i == num_operators - 1;
 
             if is_last {
                 // Last operator pushes to the real sink
-                return self.operators[i].push(current_chunk, &mut *self.sink);
+                let downstream = self.operators[i].push(current_chunk, &mut *self.sink)?;
+                return Ok(keep_going && downstream);
             }
 
             // Intermediate operators collect output
             let mut collector = ChunkCollector::new();
-            let continue_processing = self.operators[i].push(current_chunk, &mut collector)?;
+            keep_going &= self.operators[i].push(current_chunk, &mut collector)?;
 
-            if !continue_processing || collector.is_empty() {
-                return Ok(continue_processing);
+            if collector.is_empty() {
+                return Ok(keep_going);
             }
 
             // Merge collected chunks for next operator
             current_chunk = collector.into_single_chunk();
         }
 
-        Ok(true)
+        Ok(keep_going)
     }
 
     /// Finalize all operators in reverse order.
@@ -233,25 +238,28 @@ impl Pipeline {
     /// Push a chunk through operators starting at index.
     fn push_through_from(&mut self, chunk: DataChunk, start: usize) -> Result<bool, OperatorError> {
         let mut current_chunk = chunk;
+        let mut keep_going = true;
 
         for i in start..self.operators.len() {
             let is_last = i == self.operators.len() - 1;
 
             if is_last {
-                return self.operators[i].push(current_chunk, &mut *self.sink);
+                let downstream = self.operators[i].push(current_chunk, &mut *self.sink)?;
+                return Ok(keep_going && downstream);
             }
 
             let mut collector = ChunkCollector::new();
-            let continue_processing = self.operators[i].push(current_chunk, &mut collector)?;
+            keep_going &= self.operators[i].push(current_chunk, &mut collector)?;
 
-            if !continue_processing || collector.is_empty() {
-                return Ok(continue_processing);
+            if collector.is_empty() {
+                return Ok(keep_going);
             }
 
             current_chunk = collector.into_single_chunk();
         }
 
-        self.sink.consume(current_chunk)
+        let downstream = self.sink.consume(current_chunk)?;
+        Ok(keep_going && downstream)
     }
 }
 
@@ -492,5 +500,42 @@ mod tests {
 
         let computed_size = pipeline.compute_chunk_size();
         assert!(computed_size <= SMALL_CHUNK_SIZE);
+    }
+
+    /// Sink that counts the rows it receives in a shared counter.
+    struct CountingTestSink(std::sync::Arc<std::sync::atomic::AtomicUsize>);
+
+    impl Sink for CountingTestSink {
+        fn consume(&mut self, chunk: DataChunk) -> Result<bool, OperatorError> {
+            self.0
+                .fetch_add(chunk.len(), std::sync::atomic::Ordering::Relaxed);
+            Ok(true)
+        }
+
+        fn finalize(&mut self) -> Result<(), OperatorError> {
+            Ok(())
+        }
+
+        fn name(&self) -> &'static str {
+            "CountingTestSink"
+        }
+    }
+
+    #[test]
+    fn test_limit_before_another_operator_keeps_its_last_rows() {
+        use crate::execution::operators::LimitPushOperator;
+
+        // Two chunks of three rows, LIMIT 4, then one more operator: the second chunk is
+        // cut to one row and handed on together with the request to stop.
+        let rows = std::sync::Arc::new(std::sync::atomic::AtomicUsize::new(0));
+        let source = Box::new(TestSource::new(2, 3));
+        let sink = Box::new(CountingTestSink(std::sync::Arc::clone(&rows)));
+
+        let mut pipeline = Pipeline::simple(source, sink)
+            .with_operator(Box::new(LimitPushOperator::new(4)))
+            .with_operator(Box::new(PassThroughOperator));
+        pipeline.execute().unwrap();
+
+        assert_eq!(rows.load(std::sync::atomic::Ordering::Relaxed), 4);
     }
 }
